@@ -96,7 +96,9 @@ def load_kind(text, mf=None):
 def text_record(text, mf=None, meta=None):
     lines = [l for l in text.split('\n')]
     cls = [c for c in (classify_line(l) for l in lines) if c is not None]
-    lenient = any(l.startswith('-----') or l.startswith('- ') for l in lines) or '\r' in text \
+    # (dash-escaped lines are unescaped inside a signed block only: without any armor line in the text a
+    # line starting with "- " is a line with the unknown tag "-")
+    lenient = any(l.startswith('-----') for l in lines) or '\r' in text \
         or '\x0b' in text or '\x0c' in text or any(ord(c) in (0x1c, 0x1d, 0x1e, 0x85, 0x2028, 0x2029) for c in text)
     obs, mf = load_kind(text, mf)
     return {'lines': cls, 'lenient': lenient, 'obs': {'kind': obs['kind'], 'n': obs['n']},
@@ -162,8 +164,11 @@ def near_valid_records(args):
     for _ in range(n):
         b = rng.choice(bases)
         k = rng.randrange(len(b) + 1)
-        how = rng.choice(['ins', 'del', 'rep', 'dup_field', 'drop_field', 'twolines'])
-        if how == 'ins':
+        how = rng.choice(['ins', 'del', 'rep', 'dup_field', 'drop_field', 'twolines', 'prefix'])
+        if how == 'prefix':
+            # something in front of an otherwise valid line (dash-escape, quote, comment marks)
+            t = rng.choice(['- ', '- ', '-- ', '+ ', '> ', '# ', '- - ', '-\t']) + b
+        elif how == 'ins':
             t = b[:k] + rng.choice(alphabet) + b[k:]
         elif how == 'del' and k < len(b):
             t = b[:k] + b[k + 1:]
